@@ -75,6 +75,17 @@ PropOfKind(k) ==
               "StopBusListenerReply", "EmitBusEvent", "BusListenerCurrentFinished"} -> "C10"
     [] OTHER -> "C11"
 
+PropOfInput(k) ==
+  CASE k \in {"CallFunction", "CallFunction2", "CallFunctionReply", "AbortFunctionCall"} -> "C02"
+    [] k \in {"CreateObject", "DestroyObject", "CreateService", "CreateService2", "DestroyService",
+              "QueryServiceVersion", "QueryServiceInfo"} -> "C03"
+    [] k \in {"SubscribeEvent", "UnsubscribeEvent", "EmitEvent", "SubscribeService", "UnsubscribeService",
+              "SubscribeAllEvents", "UnsubscribeAllEvents"} -> "C04"
+    [] k \in {"CreateChannel", "CloseChannelEnd", "ClaimChannelEnd", "SendItem", "AddChannelCapacity"} -> "C05"
+    [] k \in {"CreateBusListener", "DestroyBusListener", "AddBusListenerFilter", "RemoveBusListenerFilter",
+              "ClearBusListenerFilters", "StartBusListener", "StopBusListener"} -> "C10"
+    [] OTHER -> "C11"
+
 \* projection of an output to the tuple the expectations are phrased in
 Proj(o) ==
   LET m == o.m  c == o.c  k == o.m.k IN
@@ -706,7 +717,8 @@ Judge(S, st) ==
 \* ---------------------------------------------------------------------------------------------
 \* The fold
 ObsStep(S, r) ==
-  IF ~S.ok THEN S
+  IF r.t = "reset" THEN ObsInit
+  ELSE IF ~S.ok THEN S
   ELSE CASE r.t = "reset" -> ObsInit
     [] r.t \in {"new", "msg", "shut", "sdc", "sdb", "sdi", "other"} ->
          IF S.inp.t # "none" THEN Bad(S, "C11", "harness: input record inside an unfinished macro-step")
@@ -723,7 +735,11 @@ ObsStep(S, r) ==
          IF S.sdb \/ (S.sdi /\ DOMAIN S.conns = {}) THEN [S EXCEPT !.stopped = TRUE]
          ELSE Bad(S, "C09", "the broker stopped without a shutdown request")
     [] r.t = "probe" -> IF r.ok THEN S ELSE Bad(S, "C11", "a well-behaved connection was not served after the abuse")
-    [] r.t = "panic" -> Bad(S, "C11", "panic: " \o r.msg)
+    [] r.t = "panic" ->
+         \* a panic is a violation of C11 and of the property whose request was being processed
+         Bad(S, IF S.inp.t = "msg" THEN PropOfInput(S.inp.m.k)
+                ELSE IF S.inp.t \in {"new", "shut", "sdc", "sdb", "sdi"} THEN "C09" ELSE "C11",
+             "panic: " \o r.msg)
     [] r.t = "end" ->
          IF r.stuck THEN Bad(S, "C11", "the system did not become quiescent within the step bound")
          ELSE IF S.inp.t # "none" THEN Bad(S, "C11", "the broker stopped in the middle of a step")
